@@ -434,6 +434,20 @@ pub fn create<N: std::fmt::Debug>(
             })
             .collect();
         if !coin_ins.is_empty() {
+            // the user trusts SOME of the transactions whose coins are being shielded (never decided
+            // by the model: it reads the marks back from the wallet)
+            if wd.cfg.trust_marks && coin_ins.len() >= 2 {
+                use rand::{seq::SliceRandom, Rng};
+                use zcash_client_backend::data_api::WalletWrite;
+                let k = wd.rng.gen_range(1..coin_ins.len());
+                let mut picks = coin_ins.clone();
+                picks.shuffle(&mut wd.rng);
+                for (t, _) in picks.into_iter().take(k) {
+                    if wd.w.db.set_tx_trust(zcash_protocol::TxId::from_bytes(t), true).is_ok() {
+                        r.count("trust_marks_on_part_of_a_shielding_transactions_inputs", 1);
+                    }
+                }
+            }
             wd.m.shield_inputs.insert(tb, coin_ins);
             wd.mine_pending_soon = true;
             r.count("pending_transactions_spending_coins", 1);
